@@ -477,6 +477,33 @@ theorem nothing_outlives_connect
     | ok => exact absurd hn hok
     | fail e => exact h8 j c hc e hn
 
+/-- the wiring of inbound connections, from the source: `InboundConnectionFactory.connectionWasMade`
+    starts the negotiation at once, and `Connection.dataReceived` has no state in which it swallows
+    bytes before the negotiation was started -/
+theorem inbound_wiring :
+    Gen.Transit.inbound_negotiates_at_once = true ∧ Gen.Transit.data_received_is_wrapper_only = true := by decide
+
+/-- **an inbound connection that arrives before the transit key** (listener started by
+    `get_connection_hints()` before `set_transit_key()`, the order of `wormhole send`) is dropped on
+    the spot by the `assert self._transit_key` in `_send_this`: it is hung up, `loseConnection()` was
+    called, its negotiation can only fail — and nothing else changes: it is not in
+    `_pending_connections`, `_listener_d` has not fired, the port stays open, `_winner` and the
+    result of `connect()` are untouched.  Whether that connection then stays, hangs up or times out
+    is irrelevant to everybody else.  (All other theorems of this file hold for both orders:
+    `Cfg.keyAtStart` is arbitrary and `setKey` is an event.) -/
+theorem early_inbound_is_dropped (w : World) (hk : w.hasKey = false) (hp : w.portOpen = true) :
+    ∃ w' c, evInbound w = some (w', some .assertion) ∧ w'.conns w.n = some c ∧
+      c.state = .hungUp ∧ c.lost = 1 ∧ c.negD = .fail .assertion ∧ c.out = [] ∧
+      w'.fPending = w.fPending ∧ w'.cont = w.cont ∧ w'.portOpen = true ∧ w'.winner = w.winner ∧
+      w'.result = w.result ∧ (∀ j, j ≠ w.n → w'.conns j = w.conns j) := by
+  refine ⟨(addOrphan w).1,
+    { newConn none none (w.now + Gen.Transit.TIMEOUT_s, w.seq) with
+      state := .hungUp, timer := none, err := some .assertion, lost := 1, negD := .fail .assertion },
+    ?_, ?_, rfl, rfl, rfl, rfl, rfl, rfl, hp, rfl, rfl, ?_⟩
+  · unfold evInbound; simp [hk, hp, addOrphan, inbound_wiring.1, inbound_wiring.2]
+  · simp [addOrphan, World.setConn, inbound_wiring.1, inbound_wiring.2]
+  · intro j hj; simp [addOrphan, World.setConn, hj]
+
 /-- the deadline statement of the design: once the clock has reached `t0 + 2·TIMEOUT` (`t0` = the
     time `connect()` was called), `connect()` has completed — with a connection or with a failure —
     whatever else happened in between, in any order. -/
